@@ -233,6 +233,29 @@ func (w *World) storePrefix(v ssa.Value, depth int) (string, bool, string) {
 			}
 			return parent + pb, true, ""
 		}
+		// a module helper that builds and returns the store: every return must resolve to the same prefix
+		if fn.Blocks != nil && w.isProdFunc(fn) {
+			var res string
+			n := 0
+			for _, ret := range Returns(fn) {
+				rv := retVals(ret)
+				if len(rv) == 0 {
+					continue
+				}
+				p, ok, why := w.storePrefix(rv[0], depth+1)
+				if !ok {
+					return "", false, why
+				}
+				if n > 0 && p != res {
+					return "", false, "store helper returning different prefixes"
+				}
+				res = p
+				n++
+			}
+			if n > 0 {
+				return res, true, ""
+			}
+		}
 		return "", false, "store from call " + q
 	case *ssa.Parameter:
 		// a store passed as parameter: resolve when every caller passes the same
